@@ -93,14 +93,10 @@ impl<'a> TypstTranslator<'a> {
                             token!(named.name(), TokenKind::Word(None)),
                             self.parse_pattern(named.pattern(), offset)
                         ],
-                        DestructuringItem::Spread(spread) => merge![
-                            spread
-                                .sink_ident()
-                                .and_then(|ident| self.parse_ident(ident, offset)),
-                            spread
-                                .sink_expr()
-                                .and_then(|expr| self.parse_expr(expr, offset))
-                        ],
+                        // A sink identifier is also the sink expression: translate it once.
+                        DestructuringItem::Spread(spread) => spread
+                            .sink_expr()
+                            .and_then(|expr| self.parse_expr(expr, offset)),
                     })
                     .flatten()
                     .collect(),
@@ -115,12 +111,10 @@ impl<'a> TypstTranslator<'a> {
 
     /// Do not use for spreads contained in DestructuringItem
     fn parse_spread(self, spread: Spread, offset: OffsetCursor) -> Option<Vec<Token>> {
-        merge![
-            self.parse_expr(spread.expr(), offset),
-            spread
-                .sink_ident()
-                .and_then(|ident| self.parse_ident(ident, offset))
-        ]
+        // A sink identifier is also the spread expression: translate it once.
+        spread
+            .sink_expr()
+            .and_then(|expr| self.parse_expr(expr, offset))
     }
 
     pub fn parse_expr(self, expr: Expr, offset: OffsetCursor) -> Option<Vec<Token>> {
